@@ -231,6 +231,19 @@ def impl_init():
             return out
         out["tape"] = list(st["log"])
         out["bytes"] = raw.hex()
+        if len(c["sig"]) % 5 == 0:
+            # impersonation BY LABEL, alternating SYN and SYN+ACK bases: the label exists in both directions with different signatures; each
+            # output must be built from the record of its OWN direction, whatever was looked up before
+            from scapy.layers.inet import IP as SIP, TCP as STCP
+            ldb = U.load_db("[tcp:request]\nlabel = s:unix:L:1\nsig = *:64:0:*:8192,7:mss,nop,ws::0\n[tcp:response]\nlabel = s:unix:L:1\nsig = *:64:0:*:16384,2:mss,nop,ws::0\n")
+            seq = []
+            for fl in (("S", "SA", "S", "SA") if len(c["sig"]) % 2 else ("SA", "S", "SA", "S")):
+                try:
+                    r2 = impersonate_tcp(SIP() / STCP(flags=fl, seq=1, ack=1 if "A" in fl else 0), raw_label="s:unix:L:1", database=ldb)
+                    seq.append([fl, r2.getlayer("TCP").window, dict(r2.getlayer("TCP").options).get("WScale")])
+                except Exception as e:
+                    seq.append([fl, type(e).__name__, None])
+            out["by_label"] = seq
         rt = res.getlayer("TCP")
         ro = [(n, list(v) if isinstance(v, tuple) else (v.hex() if isinstance(v, bytes) else v)) for n, v in rt.options]
         out["outf"] = {"src": res.src, "dst": res.dst, "sport": rt.sport, "dport": rt.dport, "seq": rt.seq, "ack": rt.ack, "flags": int(rt.flags),
